@@ -398,8 +398,10 @@ theorem hop_spec (c : Ctx) (id : Bytes) (hc : extractOrgID c = .ok id) (h : Hop)
     (hopClean id h = true → ∃ recv, hop c h = .ok (injectOrgID recv id)) ∧
     (hopClean id h = false → ∃ e, hop c h = .error e) := by
   cases h with
-  | http ex recv =>
+  | http ex0 recv =>
     simp only [hop, injectHTTP, hc, hopClean]
+    generalize headerGet ex0 = ex
+    have hget : headerGet [id] = id := rfl
     constructor
     · intro hcl
       simp only [Bool.and_eq_true, bne_iff_ne, ne_eq, Bool.or_eq_true, beq_iff_eq] at hcl
@@ -409,7 +411,7 @@ theorem hop_spec (c : Ctx) (id : Bytes) (hc : extractOrgID c = .ok id) (h : Hop)
         · exact h1 h
         · exact h2 h
       rw [if_neg this]
-      exact ⟨recv, by simp [extractHTTP, hid]⟩
+      exact ⟨recv, by simp [extractHTTP, hget, hid]⟩
     · intro hcl
       by_cases h1 : ex ≠ [] ∧ ex ≠ id
       · rw [if_pos h1]; exact ⟨_, rfl⟩
@@ -430,7 +432,7 @@ theorem hop_spec (c : Ctx) (id : Bytes) (hc : extractOrgID c = .ok id) (h : Hop)
               exact ⟨hid, hex⟩
             rw [this] at hcl
             exact Bool.noConfusion hcl
-        exact ⟨.noOrgID, by simp [extractHTTP, hid]⟩
+        exact ⟨.noOrgID, by simp [extractHTTP, headerGet, hid]⟩
   | grpc ex recv =>
     simp only [hop, injectGRPC, hc, hopClean]
     constructor
